@@ -3984,12 +3984,16 @@ class mulgrid(object):
                                               ((2, 3), 3, (3, 0), 'c'))}}
             # create refined columns (and centre nodes for quadrilaterals that need them):
             centrenodes = {}
+            unrefined = set([])
             for col in columns_plus_edge:
                 nn = col.num_nodes
                 refined_sides = []
                 for i, corner in enumerate(col.node):
                     if frozenset((corner.name, col.node[(i + 1) % nn].name)) in sidenodes:
                         refined_sides.append(i)
+                if len(refined_sides) == 0: # e.g. an edge column with no refined sides
+                    unrefined.add(col)
+                    continue
                 nrefined, istart, irange = transition_type(nn, refined_sides)
                 if (col.num_nodes == 4) and ((nrefined == 4) or
                                              ((nrefined == 2) and (irange == 1))):
@@ -4010,7 +4014,7 @@ class mulgrid(object):
                     self.add_column(column(name, nodes, surface = col.surface))
                     self.columnlist[-1].num_layers = col.num_layers
             # clean up:
-            for col in columns_plus_edge: self.delete_column(col.name)
+            for col in columns_plus_edge - unrefined: self.delete_column(col.name)
             for con in self.missing_connections: self.add_connection(con)
             self.identify_neighbours()
             self.setup_block_name_index()
